@@ -15,7 +15,7 @@ INIT = "pygopherd/initialization.py::"
 def _server_ctor(eng, world, clsname, args, kwargs, node, fr):
     eng.assumptions_used.add("constructing the TCP server class binds the listening socket (socketserver.TCPServer.__init__ -> server_bind) or raises OSError")
     X.trace_event(eng, "bind", [])
-    if eng.branch(z3.Bool(eng.fresh_name("fails_bind"))):
+    if eng.branch_fresh("fails_bind"):
         X.trace_event(eng, "FAILED:bind", [])
         raise Raised(VExc("OSError", X.oserror_args(eng, "bind")), getattr(node, "lineno", None))
     o = VObj("Server", name=eng.fresh_name("server"))
@@ -32,7 +32,7 @@ def _ssl_create_default_context(eng, world, args, kwargs, node):
 def _load_cert_chain(eng, world, selfobj, args, kwargs, node):
     eng.assumptions_used.add("SSLContext.load_cert_chain reads the key files or raises ssl.SSLError/OSError")
     X.trace_event(eng, "load_cert_chain", [])
-    if eng.branch(z3.Bool(eng.fresh_name("fails_load_cert_chain"))):
+    if eng.branch_fresh("fails_load_cert_chain"):
         X.trace_event(eng, "FAILED:load_cert_chain", [])
         raise Raised(VExc("OSError", X.oserror_args(eng, "ssl")), getattr(node, "lineno", None))
     return NONE
